@@ -12,6 +12,15 @@ namespace Model
 def ok : Except Err Unit := .ok ()
 def verr (msg : String) : Except Err α := .error (.validation msg)
 
+/-- `if not cond: raise ValidationError(msg)` -/
+def require (cond : Bool) (msg : String) : Except Err Unit :=
+  if cond then .ok () else .error (.validation msg)
+
+/-- run a check on every element, in order, stopping at the first error -/
+def forAll (f : α → Except Err Unit) : List α → Except Err Unit
+  | [] => .ok ()
+  | a :: rest => f a >>= fun _ => forAll f rest
+
 /-- Python's `<` on `bytes`: lexicographic -/
 def bytesLt : Bytes → Bytes → Bool
   | [], [] => false
@@ -119,15 +128,14 @@ def blockFees (u : Utxo) : List CTx → Except Err Int
 
 /-- `validate_non_coinbase_transaction_by_itself` -/
 def validateTxByItself (P : Params) (t : CTx) : Except Err Unit := do
-  if t.tx.inputs.length = 0 then verr "No inputs"
-  if t.tx.outputs.length = 0 then verr "No outputs"
-  if (encTx t.tx).length > P.maxBlockSize then verr "transaction > MAX_BLOCK_SIZE"
-  if !(t.tx.outputs.all fun o => sashimiInRange P o.value) then verr "Value out of range."
-  if !(sashimiInRange P (outputsValue t.tx.outputs)) then verr "Value out of range."
-  if !(t.tx.inputs.map (·.ref)).Nodup then verr "output_reference referenced more than once"
-  if t.tx.inputs.any fun i => i.ref = thinAir then verr "null-reference in non-coinbase"
-  if !(t.tx.inputs.all fun i => i.sig.isSecp) then verr "Non-signature Signature"
-  ok
+  require (t.tx.inputs.length ≠ 0) "No inputs"
+  require (t.tx.outputs.length ≠ 0) "No outputs"
+  require ((encTx t.tx).length ≤ P.maxBlockSize) "transaction > MAX_BLOCK_SIZE"
+  require (t.tx.outputs.all fun o => sashimiInRange P o.value) "Value out of range."
+  require (sashimiInRange P (outputsValue t.tx.outputs)) "Value out of range."
+  require (decide (t.tx.inputs.map (·.ref)).Nodup) "output_reference referenced more than once"
+  require (t.tx.inputs.all fun i => i.ref ≠ thinAir) "null-reference in non-coinbase"
+  require (t.tx.inputs.all fun i => i.sig.isSecp) "Non-signature Signature"
 
 /-- `validate_coinbase_transaction_by_itself`; returns the height recorded in the reward -/
 def validateCoinbaseByItself (P : Params) (t : CTx) : Except Err Nat :=
@@ -143,9 +151,8 @@ def validateCoinbaseByItself (P : Params) (t : CTx) : Except Err Nat :=
 /-- `validate_block_header_by_itself`; note that the proof of work is checked on the hash
 recomputed from the header, not on the cached id -/
 def validateHeaderByItself (C : Crypto) (P : Params) (h : Header) (now : Int) : Except Err Unit := do
-  if !(bytesLt (C.sha256d (encHeader h)) h.summary.target) then verr "hash >= target"
-  if (h.summary.timestamp : Int) > now + P.maxFutureBlockTime then verr "Block timestamp in the future"
-  ok
+  require (bytesLt (C.sha256d (encHeader h)) h.summary.target) "hash >= target"
+  require (decide ((h.summary.timestamp : Int) ≤ now + P.maxFutureBlockTime)) "Block timestamp in the future"
 
 /-- `validate_no_duplicate_transactions` (set membership: same hash and `__eq__`) -/
 def noDuplicateTxs (C : Crypto) : List CTx → Bool
@@ -159,15 +166,14 @@ def validateBlockByItself (C : Crypto) (P : Params) (b : Block) (now : Int) : Ex
   validateHeaderByItself C P b.header now
   match b.txs with
   | [] => verr "No transactions in block"
-  | cb :: rest =>
-    if (encBlock b).length > P.maxBlockSize then verr "Block > MAX_BLOCK_SIZE"
+  | cb :: rest => do
+    require ((encBlock b).length ≤ P.maxBlockSize) "Block > MAX_BLOCK_SIZE"
     let h ← validateCoinbaseByItself P cb
-    if h ≠ b.height then verr "block.height != coinbase.height"
-    rest.forM (validateTxByItself P)
-    if !(noDuplicateTxs C rest) then verr "Duplicate transaction."
-    if !(allRefs rest).Nodup then verr "Duplicate output_reference."
-    if calcMerkleRoot C b.txs ≠ some b.header.summary.merkleRoot then verr "Incorrect merkle_root_hash"
-    ok
+    require (h = b.height) "block.height != coinbase.height"
+    forAll (validateTxByItself P) rest
+    require (noDuplicateTxs C rest) "Duplicate transaction."
+    require (decide (allRefs rest).Nodup) "Duplicate output_reference."
+    require (calcMerkleRoot C b.txs = some b.header.summary.merkleRoot) "Incorrect merkle_root_hash"
 
 def signable (t : Tx) : Tx := ⟨t.inputs.map fun i => ⟨i.ref, .signable⟩, t.outputs⟩
 
@@ -191,8 +197,7 @@ def validateInputs (C : Crypto) (u : Utxo) (t : Tx) : List Input → Except Err 
 /-- `validate_non_coinbase_transaction_in_coinstate` against the unspent set `u` -/
 def validateTxInState (C : Crypto) (u : Utxo) (t : CTx) : Except Err Unit := do
   let total ← validateInputs C u t.tx t.tx.inputs
-  if outputsValue t.tx.outputs > total then verr "Transaction overspending"
-  ok
+  require (outputsValue t.tx.outputs ≤ total) "Transaction overspending"
 
 /-- `validate_block_summary_in_coinstate` -/
 def validateSummaryInState (C : Crypto) (P : Params) (cs : CoinState) (s : Summary) :
@@ -200,42 +205,40 @@ def validateSummaryInState (C : Crypto) (P : Params) (cs : CoinState) (s : Summa
   match cs.blocks.get? s.prev with
   | none => verr "previous_block_hash unknown"
   | some pb => do
-    if s.timestamp ≤ pb.timestamp then verr "Timestamps must be strictly increasing."
+    require (pb.timestamp < s.timestamp) "Timestamps must be strictly increasing."
     let t ← calcTarget C P cs (pb.height + 1) s.timestamp pb
-    if s.target ≠ t then verr "Block's reported target incorrect"
-    ok
+    require (s.target = t) "Block's reported target incorrect"
 
 /-- `validate_coinbase_transaction_in_coinstate` -/
 def validateCoinbaseInState (P : Params) (cs : CoinState) (cb : CTx) (b : Block) : Except Err Unit :=
   match cs.blocks.get? b.prev with
   | none => .error (.key "previous block")
   | some pb => do
-    if b.height ≠ pb.height + 1 then verr "Block's reported height incorrect."
+    require (b.height = pb.height + 1) "Block's reported height incorrect."
     match cs.utxoAt.get? b.prev with
     | none => .error (.key "utxo of parent")
-    | some u =>
+    | some u => do
       let fees ← blockFees u b.txs.tail
-      if (outputsValue cb.tx.outputs : Int) > fees + subsidy P b.height then
-        verr "Transaction overspending (Coinbase)"
-      ok
+      require (decide ((outputsValue cb.tx.outputs : Int) ≤ fees + subsidy P b.height))
+        "Transaction overspending (Coinbase)"
 
 /-- `validate_block_in_coinstate` -/
 def validateBlockInState (C : Crypto) (P : Params) (cs : CoinState) (b : Block) : Except Err Unit :=
   if (b.height : Int) ≤ P.maxKnownHeight then
     match P.knownHashes.lookup b.height with
-    | some h => if b.id C ≠ h then verr "No forks allowed before the last checkpoint" else ok
+    | some h => require (b.id C = h) "No forks allowed before the last checkpoint"
     | none => ok
   else do
     validateSummaryInState C P cs b.header.summary
     let ev ← constructEvidence C P cs b.header.summary b.height b.txs
-    if b.header.evidence ≠ ev then verr "POW Evidence incorrect"
+    require (b.header.evidence = ev) "POW Evidence incorrect"
     match b.txs with
     | [] => .error (.key "transactions[0]")
-    | cb :: rest =>
+    | cb :: rest => do
       validateCoinbaseInState P cs cb b
       match cs.utxoAt.get? b.prev with
       | none => .error (.key "utxo of parent")
-      | some u => rest.forM (validateTxInState C u)
+      | some u => forAll (validateTxInState C u) rest
 
 /-- `CoinState.add_block` (full validation) -/
 def addBlock (C : Crypto) (P : Params) (cs : CoinState) (b : Block) (now : Int) :
